@@ -57,7 +57,21 @@ class Lock:
 # ------------------------------------------------------------------------------------------
 # Coq side
 
+COQPROJECT_HEADER = ("-Q . Kit\n-arg -w -arg -notation-overridden,-deprecated-hint-without-locality,"
+                     "-deprecated-instance-without-locality,-ambiguous-paths\n")
+
+
+def coq_project():
+    """_CoqProject lists every .v file under coq/ (regenerated when the file set changes)."""
+    files = sorted(os.path.relpath(p, COQ) for p in glob.glob(os.path.join(COQ, "**", "*.v"), recursive=True))
+    text = COQPROJECT_HEADER + "\n".join(files) + "\n"
+    cp = os.path.join(COQ, "_CoqProject")
+    if not os.path.exists(cp) or open(cp).read() != text:
+        open(cp, "w").write(text)
+
+
 def coq_makefile():
+    coq_project()
     mk = os.path.join(COQ, "Makefile")
     cp = os.path.join(COQ, "_CoqProject")
     if not os.path.exists(mk) or os.path.getmtime(mk) < os.path.getmtime(cp):
@@ -75,10 +89,28 @@ def coq_build(targets=None, timeout=3600):
         return rc, out, wall
 
 
-def grep_gate():
-    """Forbidden tokens anywhere in the development (comments stripped)."""
+def kit_deps(vfile, seen=None):
+    """Transitive closure of the development's own files a .v file Requires (regex on Require lines)."""
+    seen = seen if seen is not None else set()
+    if vfile in seen or not os.path.exists(vfile):
+        return seen
+    seen.add(vfile)
+    src = strip_comments(open(vfile, encoding="utf8", errors="replace").read())
+    for m in re.finditer(r"(?:From\s+Kit\s+)?Require\s+(?:Import\s+|Export\s+)?([^.]*(?:\.[A-Za-z_][^.\s]*)*)\.(?=\s|$)", src):
+        for tok in m.group(1).split():
+            tok = tok.strip()
+            if tok.startswith("Kit."):
+                tok = tok[4:]
+            cand = os.path.join(COQ, *tok.split(".")) + ".v"
+            if os.path.exists(cand):
+                kit_deps(cand, seen)
+    return seen
+
+
+def grep_gate(files):
+    """Forbidden tokens in the given files (comments stripped)."""
     hits = []
-    for path in sorted(glob.glob(os.path.join(COQ, "**", "*.v"), recursive=True)):
+    for path in sorted(files):
         src = open(path, encoding="utf8", errors="replace").read()
         src = strip_comments(src)
         for m in FORBIDDEN.finditer(src):
@@ -106,47 +138,56 @@ def strip_comments(src):
 
 
 def proof_obligations(pid):
-    """Re-check coq/Properties/<pid>.v: one obligation per Theorem; discharged iff the file
-    compiles up to and including it and its Print Assumptions is closed or whitelisted."""
-    vfile = os.path.join(COQ, "Properties", pid + ".v")
+    """Re-check coq/Properties/<pid>.v (and <pid>_*.v): one obligation per Theorem; discharged iff
+    the file compiles up to and including it and its Print Assumptions is closed or whitelisted."""
     res = {"obligations": 0, "discharged": 0, "theorems": [], "undischarged": [], "axioms": {},
-           "log": ""}
-    if not os.path.exists(vfile):
+           "log": "", "files": []}
+    vfiles = sorted(glob.glob(os.path.join(COQ, "Properties", pid + ".v")) +
+                    glob.glob(os.path.join(COQ, "Properties", pid + "_*.v")))
+    if not vfiles:
         res["undischarged"].append("Properties/%s.v missing" % pid)
         return res
-    src = strip_comments(open(vfile).read())
-    thms = [(m.group(1), src.count("\n", 0, m.start()) + 1)
-            for m in re.finditer(r"^\s*Theorem\s+([A-Za-z0-9_']+)", src, re.M)]
-    res["obligations"] = len(thms)
-    res["theorems"] = [t for t, _ in thms]
-    rc, out, wall = coq_build(["Properties/%s.vo" % pid])
+    targets = ["Properties/%s.vo" % os.path.basename(v)[:-2] for v in vfiles]
+    rc, out, wall = coq_build(targets)
     res["build_wall_s"] = round(wall, 1)
-    # Print Assumptions output is only produced when the file is (re)compiled; run it directly.
+    if rc != 0:
+        res["log"] += out[-3000:]
     os.makedirs(os.path.join(WORK, "props"), exist_ok=True)
-    rc2, out2, _ = sh(["coqc", "-Q", ".", "Kit", "-o", os.path.join(WORK, "props", pid + ".vo"),
-                       "Properties/%s.v" % pid], cwd=COQ, timeout=1800)
-    res["log"] = (out if rc != 0 else "") + out2
-    # Print Assumptions blocks, in order
-    blocks = re.split(r"^(?=Closed under the global context|Axioms:)", out2, flags=re.M)
-    blocks = [b for b in blocks if b.startswith("Closed under") or b.startswith("Axioms:")]
-    for idx, (name, line) in enumerate(thms):
-        if idx >= len(blocks):
-            res["undischarged"].append(name + (" (does not compile)" if rc2 != 0 else " (no Print Assumptions output)"))
-            continue
-        b = blocks[idx]
-        if b.startswith("Closed under"):
-            res["discharged"] += 1
-            res["axioms"][name] = []
-            continue
-        axs = re.findall(r"^([A-Za-z_][\w.']*)\s*:", b, re.M)
-        bad = [a for a in axs if a not in AXIOM_WHITELIST and not a.startswith(PRIMITIVE_PREFIXES)
-               and a.split(".")[-1] not in AXIOM_WHITELIST]
-        res["axioms"][name] = axs
-        if bad:
-            res["undischarged"].append("%s (assumes %s)" % (name, ", ".join(bad)))
-        else:
-            res["discharged"] += 1
-    gate = grep_gate()
+    deps = set()
+    for vfile in vfiles:
+        base = os.path.basename(vfile)[:-2]
+        res["files"].append("Properties/%s.v" % base)
+        kit_deps(vfile, deps)
+        src = strip_comments(open(vfile).read())
+        thms = [m.group(1) for m in re.finditer(r"^\s*Theorem\s+([A-Za-z0-9_']+)", src, re.M)]
+        res["obligations"] += len(thms)
+        res["theorems"] += thms
+        # Print Assumptions output is only produced when the file is (re)compiled; run it directly.
+        rc2, out2, _ = sh(["coqc", "-Q", ".", "Kit", "-o", os.path.join(WORK, "props", base + ".vo"),
+                           "Properties/%s.v" % base], cwd=COQ, timeout=1800)
+        if rc2 != 0:
+            res["log"] += out2[-3000:]
+        blocks = re.split(r"^(?=Closed under the global context|Axioms:)", out2, flags=re.M)
+        blocks = [b for b in blocks if b.startswith("Closed under") or b.startswith("Axioms:")]
+        for idx, name in enumerate(thms):
+            if idx >= len(blocks):
+                res["undischarged"].append(name + (" (does not compile)" if rc2 != 0 else " (no Print Assumptions output)"))
+                continue
+            b = blocks[idx]
+            if b.startswith("Closed under"):
+                res["discharged"] += 1
+                res["axioms"][name] = []
+                continue
+            axs = re.findall(r"^([A-Za-z_][\w.']*)\s*:", b, re.M)
+            bad = [a for a in axs if a not in AXIOM_WHITELIST and not a.startswith(PRIMITIVE_PREFIXES)
+                   and a.split(".")[-1] not in AXIOM_WHITELIST]
+            res["axioms"][name] = axs
+            if bad:
+                res["undischarged"].append("%s (assumes %s)" % (name, ", ".join(bad)))
+            else:
+                res["discharged"] += 1
+    gate = grep_gate(deps)
+    res["dep_files"] = len(deps)
     if gate:
         res["undischarged"].append("forbidden tokens: " + "; ".join(gate[:5]))
         res["discharged"] = 0
@@ -185,28 +226,35 @@ def run_shards(outdir, timeout=1800):
 # ------------------------------------------------------------------------------------------
 # Go side
 
-def harness_build(cfg):
+def harness_names(cfg):
+    h = cfg["harness"]
+    return h if isinstance(h, list) else [h]
+
+
+def harness_build(name):
     with Lock("go"):
         try:
             shutil.copyfile(os.path.join(REPO, "go.sum"), os.path.join(HARNESS, "go.sum"))
         except OSError:
             pass
         os.makedirs(os.path.join(HARNESS, "bin"), exist_ok=True)
-        rc, out, wall = sh(["go", "build", "-tags", "unit,verif", "-o", "bin/" + cfg["harness"], "./" + cfg["harness"]],
+        rc, out, wall = sh(["go", "build", "-tags", "unit,verif", "-o", "bin/" + name, "./" + name],
                            cwd=HARNESS, env=GOENV, timeout=1200)
         return rc, out, wall
 
 
-def harness_run(cfg, pid, tier, seed, outdir, inputs=None, timeout=3600):
+def harness_run(name, pid, tier, seed, outdir, inputs=None, timeout=3600):
     if os.path.isdir(outdir):
         shutil.rmtree(outdir)
     os.makedirs(outdir)
-    cmd = [os.path.join(HARNESS, "bin", cfg["harness"]), "-tier", tier, "-seed", str(seed),
+    cmd = [os.path.join(HARNESS, "bin", name), "-tier", tier, "-seed", str(seed),
            "-out", outdir]
     if inputs:
         cmd += ["-inputs", inputs]
     else:
         corpus = os.path.join(ROOT, "corpus", pid)
+        if len(name) > 3 and os.path.isdir(os.path.join(ROOT, "corpus", pid, name)):
+            corpus = os.path.join(ROOT, "corpus", pid, name)
         if os.path.isdir(corpus):
             cmd += ["-corpus", corpus]
     return sh(cmd, cwd=HARNESS, env=GOENV, timeout=timeout)
@@ -274,38 +322,61 @@ def check_property(pid, tier, seed, replay=None):
     lines, violations = [], []
     # 1. proof obligations
     ob = proof_obligations(pid)
-    # 2. harness against /repo's working tree
-    rc, out, hb_wall = harness_build(cfg)
-    if rc != 0:
-        print(out[-3000:])
-        print("harness build failed against /repo's working tree")
-        return finish(pid, tier, seed, t0, ob, None, [], [{"kind": "build", "detail": out[-2000:]}], cfg,
-                      fatal="harness does not build")
-    inputs = None
+    # 2. harnesses against /repo's working tree
+    replay_case = None
     if replay:
         rp = json.load(open(replay))
-        inputs = os.path.join(WORK, pid + "-replay-inputs.jsonl")
-        with open(inputs, "w") as f:
-            for c in rp.get("cases", [rp.get("case")] if rp.get("case") else []):
-                f.write(json.dumps(c["input"]) + "\n")
-    rc, out, h_wall = harness_run(cfg, pid, tier, seed, outdir, inputs=inputs,
-                                  timeout=cfg.get("timeout_thorough", 7200) if tier == "thorough" else cfg.get("timeout_quick", 900))
-    if rc != 0:
-        print(out[-3000:])
-        return finish(pid, tier, seed, t0, ob, None, [], [{"kind": "harness", "detail": out[-2000:]}], cfg,
-                      fatal="harness run failed (rc=%d)" % rc)
-    cases = load_cases(outdir)
-    summary = json.load(open(os.path.join(outdir, "summary.json")))
-    failures, errors, coq_wall = run_shards(outdir)
-    if errors:
-        print("\n".join(errors)[-3000:])
-        return finish(pid, tier, seed, t0, ob, summary, cases, [{"kind": "coqc", "detail": errors[:3]}], cfg,
-                      fatal="model evaluation failed")
-    for c in cases:
-        if c.get("direct"):
-            failures[c["i"]] = max(failures.get(c["i"], 0), c["direct"])
-    summary["wall"] = {"harness_build_s": round(hb_wall, 1), "harness_s": round(h_wall, 1), "coq_cases_s": round(coq_wall, 1)}
-    return finish(pid, tier, seed, t0, ob, summary, cases, failures, cfg, replay=replay)
+        replay_case = rp.get("case")
+        if not replay_case:
+            print("replay file names no concrete case (kind=%s): re-running the normal check" % rp.get("kind"))
+            replay = None
+    names = harness_names(cfg)
+    if replay_case and replay_case.get("bin") in names:
+        names = [replay_case["bin"]]
+    all_cases, failures, summary = [], {}, {"distribution": {}, "extra": {}, "distinct_nontrivial": 0, "wall": {}}
+    tmo = cfg.get("timeout_thorough", 7200) if tier == "thorough" else cfg.get("timeout_quick", 900)
+    for name in names:
+        odir = os.path.join(outdir, name)
+        rc, out, hb_wall = harness_build(name)
+        if rc != 0:
+            print(out[-3000:])
+            print("harness %s does not build against /repo's working tree" % name)
+            return finish(pid, tier, seed, t0, ob, None, [], [{"kind": "build", "detail": out[-2000:]}], cfg,
+                          fatal="harness %s does not build" % name)
+        inputs = None
+        if replay_case:
+            inputs = os.path.join(WORK, pid + "-replay-inputs.jsonl")
+            with open(inputs, "w") as f:
+                f.write(json.dumps(replay_case["input"]) + "\n")
+        rc, out, h_wall = harness_run(name, pid, tier, seed, odir, inputs=inputs, timeout=tmo)
+        if rc != 0:
+            print(out[-3000:])
+            return finish(pid, tier, seed, t0, ob, None, [], [{"kind": "harness", "detail": out[-2000:]}], cfg,
+                          fatal="harness %s run failed (rc=%d)" % (name, rc))
+        cases = load_cases(odir)
+        sm = json.load(open(os.path.join(odir, "summary.json")))
+        fl, errors, coq_wall = run_shards(odir)
+        if errors:
+            print("\n".join(errors)[-3000:])
+            return finish(pid, tier, seed, t0, ob, sm, cases, [{"kind": "coqc", "detail": errors[:3]}], cfg,
+                          fatal="model evaluation failed (%s)" % name)
+        base = len(all_cases)
+        for c in cases:
+            c["bin"] = name
+            if c.get("direct"):
+                fl[c["i"]] = max(fl.get(c["i"], 0), c["direct"])
+        for i, v in fl.items():
+            failures[base + i] = v
+        all_cases += cases
+        pre = (name + "/") if len(names) > 1 else ""
+        for k, v in sm.get("distribution", {}).items():
+            summary["distribution"][pre + k] = v
+        for k, v in sm.get("extra", {}).items():
+            summary["extra"][pre + k] = v
+        summary["distinct_nontrivial"] += sm.get("distinct_nontrivial", 0)
+        summary["wall"][name] = {"harness_build_s": round(hb_wall, 1), "harness_s": round(h_wall, 1),
+                                 "coq_cases_s": round(coq_wall, 1)}
+    return finish(pid, tier, seed, t0, ob, summary, all_cases, failures, cfg, replay=replay)
 
 
 def finish(pid, tier, seed, t0, ob, summary, cases, failures, cfg, fatal=None, replay=None):
@@ -406,11 +477,12 @@ def setup():
         print("coq build failed")
         return 1
     for pid, cfg in sorted(PROPS.items()):
-        rc, out, _ = harness_build(cfg)
-        if rc != 0:
-            print(out[-4000:])
-            print("harness build failed for", pid)
-            return 1
+        for name in harness_names(cfg):
+            rc, out, _ = harness_build(name)
+            if rc != 0:
+                print(out[-4000:])
+                print("harness build failed for", pid, name)
+                return 1
     print("setup ok in %.0fs" % (time.time() - t0))
     return 0
 
